@@ -14,7 +14,7 @@ import (
 
 func init() {
 	suites["lock"] = suite{
-		rule: "C34: (1) script-level: acqms/acqat/fcqms/fcqat/extend/delkey on the fake's registers with own, foreign and missing values vs the Lean register scripts; (2) end-to-end: real rueidislock Lockers (KeyMajority 1..3, NoLoopTracking, FallbackSETPX on/off, one fake connection per Locker with OPTOUT tracking and invalidation pushes) driven one event at a time to quiescence: TryWithContext, WithContext waiters (goroutines), ForceWithContext, release (cancel func), third-party deletion and expiry of single keys, injected failures of one acquisition (bare-majority holders) and of one extend, third-party writes; the anonymous state (live contexts, waiters, every live holder owns a majority, all keys free when idle) is compared with the Lean model run to quiescence on a canonical schedule; the harness itself flags two live contexts in episodes without force/expiry/deletion/faults and a key deleted by its holder's delkey while that holder's context is still live; after a waiter took the lock over, episodes destroy no further keys (how many spare keys the new holder got is a scheduler race); non-trivial = distinct op within its episode prefix",
+		rule: "C34: (1) script-level: acqms/acqat/fcqms/fcqat/extend/delkey on the fake's registers with own, foreign and missing values vs the Lean register scripts; (2) end-to-end: real rueidislock Lockers (KeyMajority 1..3, NoLoopTracking, FallbackSETPX on/off, one fake connection per Locker with OPTOUT tracking and invalidation pushes) driven one event at a time to quiescence: TryWithContext, WithContext waiters (goroutines), ForceWithContext, release (cancel func), third-party deletion and expiry of single keys, one fixed gated schedule with two waiters of ONE Locker under NoLoopTracking (known finding lock:lost-wakeup:noloop-sibling-failed-attempt) and its control without NOLOOP, injected failures of one acquisition (bare-majority holders) and of one extend, third-party writes; the anonymous state (live contexts, waiters, every live holder owns a majority, all keys free when idle) is compared with the Lean model run to quiescence on a canonical schedule; the harness itself flags two live contexts in episodes without force/expiry/deletion/faults and a key deleted by its holder's delkey while that holder's context is still live; after a waiter took the lock over, episodes destroy no further keys (how many spare keys the new holder got is a scheduler race); non-trivial = distinct op within its episode prefix",
 		run:  runLock,
 		replay: func(c *Ctx, lines []string) {
 			ep := &lkEp{}
@@ -45,6 +45,10 @@ type lkEp struct {
 	dirty   bool // force / expiry / deletion / fault happened: the mutual-exclusion hypothesis is off
 	early   []string
 	failKey string
+	noloop  bool
+	gmu     sync.Mutex
+	gates   map[string]chan struct{} // "<conn>:<key index>" -> gate that holds that connection's delkey of that key
+	gated   map[int]int              // conn -> goroutines waiting at a gate
 	lastVal map[int]string // connection id -> value of its last successful acquire/force script
 	failAcq string // one injected failure of the next acquire script on this key
 	dead    bool
@@ -77,7 +81,7 @@ func (e *lkEp) locker(i int, px bool) rueidislock.Locker {
 			return newFakeClient(e.srv, i+1, opt), nil
 		},
 		KeyMajority: int32(e.m), KeyValidity: time.Hour, ExtendInterval: 30 * time.Minute, TryNextAfter: time.Minute,
-		NoLoopTracking: true, FallbackSETPX: px,
+		NoLoopTracking: e.noloop, FallbackSETPX: px,
 	})
 	if err != nil {
 		panic(err)
@@ -171,6 +175,33 @@ func (e *lkEp) op(c *Ctx, line string) {
 				return "ERR injected timeout"
 			}
 			return ""
+		}
+		e.noloop = !(len(w) > 2 && w[2] == "noloop=0")
+		e.gates, e.gated = map[string]chan struct{}{}, map[int]int{}
+		e.srv.beforeExec = func(cl *fakeClient, cmd []string) {
+			// gates on delkey script calls (EVALSHA by sha or EVAL by text), per connection and key
+			if cl == nil || len(cmd) < 4 || !strings.HasPrefix(strings.ToUpper(cmd[0]), "EVAL") ||
+				!(cmd[1] == "9eb62214c9af87ae5f9a9f12bb4520281c0d2ae1" || strings.Contains(cmd[1], `redis.call("DEL"`)) {
+				return
+			}
+			for i := 0; i < e.n; i++ {
+				if cmd[3] != e.key(i) {
+					continue
+				}
+				k := fmt.Sprintf("%d:%d", cl.id, i)
+				e.gmu.Lock()
+				ch := e.gates[k]
+				if ch != nil {
+					e.gated[cl.id]++
+				}
+				e.gmu.Unlock()
+				if ch != nil {
+					<-ch
+					e.gmu.Lock()
+					e.gated[cl.id]--
+					e.gmu.Unlock()
+				}
+			}
 		}
 		e.lastVal = map[int]string{}
 		e.srv.onExec = func(l *logged) {
@@ -304,6 +335,75 @@ func (e *lkEp) op(c *Ctx, line string) {
 		e.srv.flush()
 		c.Hit(w[0])
 		emit()
+	case "sib.setup": // H = Locker 0 holds the lock, two WithContext waiters on Locker 1 (ONE connection); gates on
+		// H's three delkeys and on Locker 1's delkey of key 0; then H's cancel() starts (and waits at the gates)
+		if e.m != 2 {
+			c.Emit(line, "bad-op", false)
+			return
+		}
+		lh, lw := e.locker(0, false), e.locker(1, false)
+		ctx, cancel, err := lh.TryWithContext(bg, "L")
+		if err != nil {
+			c.Emit(line, "setup-failed", true)
+			return
+		}
+		e.got(ctx, cancel, 1)
+		for k := 0; k < 2; k++ {
+			src, stop := context.WithCancel(bg)
+			e.cancels = append(e.cancels, stop)
+			e.mu.Lock()
+			e.waiting++
+			e.mu.Unlock()
+			go func() {
+				ctx, cancel, err := lw.WithContext(src, "L")
+				if err == nil {
+					e.got(ctx, cancel, 2)
+				}
+				e.mu.Lock()
+				e.waiting--
+				e.mu.Unlock()
+			}()
+			settle()
+		}
+		e.gmu.Lock()
+		for _, k := range []string{"1:0", "1:1", "1:2", "2:0"} {
+			e.gates[k] = make(chan struct{})
+		}
+		e.gmu.Unlock()
+		go cancel()
+		c.Hit("sib.setup")
+		settle()
+		c.Emit(line, e.sibState(), true)
+	case "sib.hdel", "sib.adel": // open one gate: H's delkey of key i / the waiters' connection's delkey of key 0
+		k := "2:0"
+		if w[0] == "sib.hdel" {
+			k = "1:" + w[1]
+		}
+		e.gmu.Lock()
+		if ch := e.gates[k]; ch != nil {
+			close(ch)
+			delete(e.gates, k)
+		}
+		e.gmu.Unlock()
+		if !settle() {
+			e.dead = true
+			c.Emit(line, "not-quiescent", true)
+			return
+		}
+		if w[0] == "sib.adel" {
+			time.Sleep(300 * time.Millisecond) // bounded wait: nothing is pending that could still wake a waiter
+			settle()
+			st := e.sibState()
+			if st == "held=0 parked=2 live=0" {
+				c.Fail("lock:lost-wakeup:noloop-sibling-failed-attempt", line,
+					"every key is free and two WithContext waiters of one Locker stay parked with an empty gate channel: one waiter's failing attempt held key 0 for a moment and refused its sibling; deleting key 0 again was the connection's own write (no invalidation under NOLOOP) and a failed attempt sends no gate token")
+			}
+			c.Hit("sib.adel:" + st)
+			c.Emit(line, st, true)
+			return
+		}
+		c.Hit(w[0])
+		c.Emit(line, e.sibState(), true)
 	case "failacq": // the next acquire script on key i fails with a server error (the caller sees a timeout)
 		i, _ := strconv.Atoi(w[1])
 		e.failAcq = e.key(i)
@@ -349,6 +449,29 @@ var acqShas = map[string]bool{
 	"c10e8119872659b926e8e28002d9b7fccbf15617": true, "4384ed08baff4dd7071b6c78c516a2fded4ee3e7": true,
 }
 
+func (e *lkEp) sibState() string {
+	e.mu.Lock()
+	defer e.mu.Unlock()
+	e.srv.mu.Lock()
+	held := 0
+	for i := 0; i < e.n; i++ {
+		if e.srv.keys[e.key(i)] != nil {
+			held++
+		}
+	}
+	e.srv.mu.Unlock()
+	live := 0
+	for _, h := range e.holders {
+		if h.ctx.Err() == nil {
+			live++
+		}
+	}
+	e.gmu.Lock()
+	atGate := e.gated[2]
+	e.gmu.Unlock()
+	return fmt.Sprintf("held=%d parked=%d live=%d", held, e.waiting-atGate, live)
+}
+
 func errClassLock(err error) string {
 	if err == nil {
 		return "ok"
@@ -381,6 +504,10 @@ func runLock(c *Ctx) {
 		{"reset 2", "extset 2", "try 0 px", "with 1 px", "failext 1", "release"},
 		{"reset 3", "failacq 3", "try 0", "failacq 4", "try 1", "extset 4", "failext 2", "with 2", "failext 0", "release"},
 		{"reset 2", "failacq 1", "try 0", "try 1", "failext 0", "try 1"},
+		// two waiters of ONE Locker, the holder's and one waiter's delkeys ordered by gates: the lost wake-up of
+		// NoLoopTracking (known finding) and the same schedule without NOLOOP as the passing control
+		{"reset 2 noloop=1", "sib.setup", "sib.hdel 0", "sib.hdel 1", "sib.hdel 2", "sib.adel"},
+		{"reset 2 noloop=0", "sib.setup", "sib.hdel 0", "sib.hdel 1", "sib.hdel 2", "sib.adel"},
 	}
 	for _, sc := range fixed {
 		for _, l := range sc {
